@@ -157,6 +157,10 @@ def _world(name):
         # an episode without a timestamp (legal: 'ts' is optional) and one with an unparsable one
         st["mem_index"].add(W._ep("ep8", "A", "apple fig", ts=None, cluster="c1", importance=0.5))
         st["mem_index"].add(W._ep("ep9", "B", "pear pear", ts="not-a-date", cluster="c2", importance=0.5))
+        # two old episodes without a cluster id and with bit-identical vectors: their derived singleton clusters tie for
+        # the best cluster of the query 'pear fig' (the clusters_top_m cut goes through the tie under cfg cluster_only)
+        st["mem_index"].add(W._ep("ep10", "A", "pear fig", 50, None, 0.2))
+        st["mem_index"].add(W._ep("ep11", "world", "pear fig", 60, None, 0.8))
         return st
     return W.make_world(name)
 
@@ -175,6 +179,7 @@ CFG_EXTRA = {
     "sched_yield_t2": {"scheduler": {"enabled": True, "quantum_ms": 10 ** 9, "budgets": {"wall_ms": 10 ** 9, "t2_k": 2, "t3_ops": 8}}},
     "sched_yield_t1": {"scheduler": {"enabled": True, "quantum_ms": 10 ** 9, "budgets": {"wall_ms": 10 ** 9, "t1_iters": 1, "t3_ops": 8}}},
     "exact_only": {"t2": {"tiers": ["exact_semantic"], "exact_recent_days": 30}},
+    "cluster_only": {"t2": {"tiers": ["cluster_semantic"], "clusters_top_m": 1}},
     "small_lru": {"t1": {"cache": {"max_entries": 1}}, "t2": {"cache": {"max_entries": 1}}},
 }
 
@@ -311,6 +316,187 @@ def worker_main(argv):
     return 0
 
 
+# ------------------------------------------------------------------ thread-schedule leg (E3b on the stages' own pools)
+# The parallel stages create a thread pool per call; which worker runs when is an environment choice just like the
+# hash seed.  mc.sched_pool turns the pool's workers into baton-scheduled threads and enumerates every schedule with
+# at most `bound` preemptions; everything the stage returns (deltas / hits AND every counter, cache diagnostics
+# included - they are written to t1.jsonl / t2.jsonl) must be the same in all of them, and so must the result of an
+# immediately following call in the same process (what the schedule left behind in the process-global caches).
+def _thr_world():
+    from mc import world as W
+    st = W.make_world("W2")
+    nodes = [("n1", "apple", {"tags": ["fruit"]}), ("n2", "pear"), ("n3", "fig")]
+    edges = [("e1", "n1", "n2", 0.75, "supports"), ("e2", "n2", "n3", 0.5, "associates"), ("e3", "n3", "n1", 0.5, "contradicts")]
+    for gid in ("ta", "tb"):  # two graphs of identical content under different ids (per-agent clones of a template)
+        W._graph(st["store"], gid, nodes, edges)
+    return st
+
+
+def threads_units(thorough):
+    units = []
+    for graphs in ((["ta", "tb"], ["ta", "g2"], ["ta", "tb", "g2"]) if thorough else (["ta", "tb"], ["ta", "g2"])):
+        for text in (("apple", "pear fig") if thorough else ("apple",)):
+            for cap in ((512, 1) if thorough else (512,)):
+                for warm in (False, True):
+                    if len(graphs) == 3 and (warm or cap == 1) and not thorough:
+                        continue
+                    units.append({"stage": "t1", "graphs": graphs, "text": text, "cap": cap, "warm": warm,
+                                  "bound": 1 if (len(graphs) == 3 or not thorough) else 2})
+    for tiers in (["exact_semantic"], ["cluster_semantic"], ["exact_semantic", "cluster_semantic", "archive"]):
+        for w in ((2, 3) if thorough else (2,)):
+            for warm in (False, True):
+                units.append({"stage": "t2", "tiers": tiers, "w": w, "text": "apple fig", "warm": warm, "bound": 1})
+    return units
+
+
+_THR = {}
+
+
+def _thr_mods():
+    if not _THR:
+        import clematis.engine.stages.t1 as t1_mod
+        import clematis.engine.stages.t2.core as t2_core
+        import clematis.engine.stages.t2.parallel as t2_par
+        import clematis.engine.util.parallel as par_mod
+        import clematis.memory.index as idx_mod
+        _THR.update(t1=t1_mod, t2=t2_core, t2par=t2_par, par=par_mod, idx=idx_mod)
+    return _THR
+
+
+def _thr_call(unit):
+    """returns a zero-argument function running the unit once (fresh world, process-global caches reset)"""
+    from mc import world as W
+    import types as _types
+    M = _thr_mods()
+    if unit["stage"] == "t1":
+        n = len(unit["graphs"])
+        cfg_par = W.make_cfg(W.deep_merge({"t1": {"cache": {"enabled": True, "max_entries": unit["cap"], "ttl_s": 300}}},
+                                          {"perf": {"parallel": {"enabled": True, "t1": True, "max_workers": n}}}))
+
+        def call():
+            W.reset_globals()
+            st = _thr_world()
+            st["active_graphs"] = list(unit["graphs"])
+            if unit["warm"]:
+                M["t1"].t1_propagate(W.make_ctx(cfg_par, "A", 1), st, unit["text"])
+            return ("run", st)
+
+        def body(st):
+            r = M["t1"].t1_propagate(W.make_ctx(cfg_par, "A", 2), st, unit["text"])
+            return {"deltas": r.graph_deltas, "metrics": dict(r.metrics)}
+
+        def after(st):
+            r = M["t1"].t1_propagate(W.make_ctx(cfg_par, "A", 3), st, unit["text"])
+            return {"deltas": r.graph_deltas, "metrics": dict(r.metrics)}
+        return call, body, after
+    cfg = W.make_cfg({"t2": {"tiers": list(unit["tiers"]), "k_retrieval": 4, "clusters_top_m": 2, "sim_threshold": -1.0},
+                      "perf": {"parallel": {"enabled": True, "t2": True, "max_workers": unit["w"]}}})
+    t1r = _types.SimpleNamespace(graph_deltas=[], metrics={})
+
+    def view(r):
+        return {"ids": [str(x.id) for x in r.retrieved], "scores": [float(x.score) for x in r.retrieved],
+                "residual": list(r.graph_deltas_residual), "metrics": dict(r.metrics)}
+
+    def call():
+        W.reset_globals()
+        st = W.make_world("W2")
+        if unit["warm"]:
+            M["t2"].t2_semantic(W.make_ctx(cfg, "A", 1), st, "pear", t1r)
+        return ("run", st)
+
+    def body(st):
+        return view(M["t2"].t2_semantic(W.make_ctx(cfg, "A", 2), st, unit["text"], t1r))
+
+    def after(st):
+        return view(M["t2"].t2_semantic(W.make_ctx(cfg, "A", 3), st, unit["text"], t1r))
+    return call, body, after
+
+
+def _thr_files(unit):
+    M = _thr_mods()
+    if unit["stage"] == "t1":
+        return [M["t1"].__file__]
+    return [M["t2par"].__file__, M["idx"].__file__]
+
+
+def _thr_explorer(unit, bound, max_exec=None):
+    from mc import sched_pool
+    M = _thr_mods()
+    return sched_pool.PoolExplorer(M["par"], _thr_files(unit), bound, max_exec=max_exec)
+
+
+def _thr_one(unit, pe, prefix, strict=True):
+    """one schedule: set-up on the calling thread (free pools), the observed call under the controlled pool, then
+    a follow-up call (free pool again)"""
+    call, body, after = _thr_call(unit)
+    _, st = call()
+    ex, obs = pe.run_one(lambda: body(st), prefix, strict=strict)
+    return ex, {"call": obs, "next": after(st)}
+
+
+def _thr_diff(ref, got):
+    out = []
+    for which in ("call", "next"):
+        a, b = ref[which], got[which]
+        for k in sorted(set(a) | set(b)):
+            if k == "metrics":
+                for m in sorted(set(a[k]) | set(b[k])):
+                    if a[k].get(m, "<absent>") != b[k].get(m, "<absent>"):
+                        out.append(("%s.metrics.%s" % (which, m), a[k].get(m, "<absent>"), b[k].get(m, "<absent>")))
+            elif a.get(k) != b.get(k):
+                out.append(("%s.%s" % (which, k), a.get(k), b.get(k)))
+    return out
+
+
+def _threads_worker(chunk, st):
+    from mc import sched
+    from mc.runner import HarnessError
+    import logging
+    logging.disable(logging.CRITICAL)
+    for unit in chunk:
+        cap_exec = 6000
+        pe = _thr_explorer(unit, unit["bound"], max_exec=cap_exec)
+        # the exploration loop of PoolExplorer.explore, with the set-up / follow-up calls outside the controlled pool
+        stack = [[]]
+        n = 0
+        ref = None
+        seen = set()
+        while stack:
+            if n >= cap_exec:
+                st.add("threads_capped_units")
+                break
+            prefix = stack.pop()
+            ex, obs = _thr_one(unit, pe, prefix)
+            if ex is None:
+                raise HarnessError("threads leg: unit %r did not fan out" % (unit,))
+            if n == 0:
+                ex2, obs2 = _thr_one(unit, pe, prefix)
+                if ex2 is None or ex2.trace != ex.trace or obs2 != obs:
+                    raise HarnessError("threads leg: the default schedule of %r is not reproducible" % (unit,))
+                ref = obs
+            n += 1
+            st.add("transitions")
+            st.add("validated")
+            st.add("thread_schedules")
+            if ex.preemptions() > 0:
+                st.add("nontrivial")
+            if ex.deadlock:
+                st.violation("threads:%s:deadlock" % unit["stage"], "unit %r deadlocks under schedule %r" % (unit, ex.choices()),
+                             {"dimension": "threads", "unit": unit, "choices": ex.choices()})
+            key = json.dumps(obs, sort_keys=True, default=repr)
+            seen.add(key)
+            if obs != ref:
+                for fld, a, b in _thr_diff(ref, obs):
+                    st.violation("threads:%s:%s" % (unit["stage"], fld),
+                                 "unit %s: %s is %r under the default schedule and %r under schedule %r (%d preemption(s))" % (
+                                     json.dumps(unit), fld, a, b, ex.choices(), ex.preemptions()),
+                                 {"dimension": "threads", "unit": unit, "choices": ex.choices(), "field": fld})
+            stack.extend(sched.children(ex.trace, len(prefix), unit["bound"]))
+        st.distinct("states", ("threads", json.dumps(unit, sort_keys=True)))
+        st.distinct("outcomes", ("threads", unit["stage"], len(seen) == 1))
+        st.notes["threads_max_schedules_per_unit"] = max(st.notes.get("threads_max_schedules_per_unit", 0), n)
+
+
 # ------------------------------------------------------------------ parent
 def _json_paths(a, b, prefix=""):
     """field paths at which two JSON values differ"""
@@ -427,6 +613,9 @@ def run(run):
                         dim = "clock" if dd == dates[0] else ("wall-date" if c == clocks[0] else "clock+wall-date")
                         report(dim, i, part, entry["ref"].get(part), got, "clock=%s wall-date=%s (hashseed %s)" % (c, dd, s))
     run.add("validated", nvalid + (len(seeds) * len(scs) * (len(clocks) * len(dates))))
+    TU = threads_units(thorough)
+    run.notes["thread_schedule_units"] = len(TU)
+    run.pmap(_threads_worker, TU, chunks=len(TU))
     run.notes["hash_seeds"] = seeds
     run.notes["clock_profiles"] = clocks
     run.notes["wall_dates"] = dates
@@ -438,7 +627,9 @@ def run(run):
                 "environments = hash seeds %s (one process each) x clock profiles %s x wall dates %s, plus a warm re-run in the same process; "
                 "non-trivial = >=2 turns; outcomes = distinct reference digests" % (len(cfgs), seeds, clocks, dates))
     run.assume("hash seeds: a fixed list plus 1000+VERIF_SEED, not all 2^32")
-    run.assume("thread timing of the parallel stages is explored by C09 (every completion order); here pools run free")
+    run.assume("thread timing: the T1 / T2 stage pools are explored under the baton scheduler (2-3 workers, every schedule with <= 1 preemption, "
+               "<= 2 for two-worker T1 units in the thorough tier; scheduling points = line events of t1.py resp. t2/parallel.py + memory/index.py; "
+               "cache / store methods in other files are atomic steps); in the full-turn scenarios the pools run free; completion orders of larger pools are C09's")
     run.assume("sidecar .meta files (wall-clock created_at by design unless SOURCE_DATE_EPOCH) are not snapshot bodies and are not compared")
     run.assume("scheduler configs use quantum/wall budgets of 1e9 ms so only budget-driven yields occur; consumed.ms masked")
 
@@ -449,6 +640,12 @@ def replay(case):
     scs, cfgs = scenario_list(True)
     d = tempfile.mkdtemp(prefix="c01r", dir="/dev/shm" if os.path.isdir("/dev/shm") else None)
     try:
+        if case.get("dimension") == "threads":
+            unit = case["unit"]
+            pe = _thr_explorer(unit, unit["bound"])
+            _, ref = _thr_one(unit, pe, [])
+            _, got = _thr_one(unit, pe, [(int(c), None) for c in case.get("choices", [])], strict=False)
+            return [("threads:%s:%s" % (unit["stage"], fld), "%r vs %r" % (a, b)) for fld, a, b in _thr_diff(ref, got)]
         sc = case["scenario"]
         ref = run_scenario(sc, cfgs, d)
         dim = case["dimension"]
